@@ -49,6 +49,15 @@ def plan(plan, tier, seed):
     except AnchorLost as e:
         plan.anchor_errors.append((n6, str(e)))
     plan.dropped.append(vC16.tail_loop_fn.__doc__.strip())
+    n7 = "C16.verus.pattern_matches_value.variable_patterns_bind_or_compare"
+    plan.ob(n7, "verus", "proved", functions=["src/interpreter/src/patterns.rs: pattern_matches_value_with_semantics (the arms for a variable pattern: `Expression::Var` and a variable wrapped in an expression)"],
+            what="for every environment of bindings made so far and every matched part: an unbound pattern variable matches and is bound to exactly that part (nothing else in the environment changes); a variable already bound (repeated in the pattern) matches iff the part equals its binding, and is not rebound")
+    try:
+        utext, fns = vC16.varpat_unit(vlib.read_repo(vC16.PPATH))
+        plan.verus.append(VerusUnit("c16_varpat", utext, {f: n7 for f in fns}, ["canary_varpat"]))
+    except AnchorLost as e:
+        plan.anchor_errors.append((n7, str(e)))
+    plan.dropped.append(vC16.varpat_fns.__doc__.strip())
     n5 = "C16.verus.try_broadcast_user_function.elementwise_over_a_matrix"
     plan.ob(n5, "verus", "proved", functions=["try_broadcast_user_function (whole body)"],
             what="a function with one input and one output of the same scalar kind, called with one matrix argument, returns the matrix of the source's shape assembled from the function applied to each element -- each element once, in element order; an error in any application is an error; in every other situation the broadcast does not apply (and applies the function to nothing)")
@@ -71,5 +80,5 @@ def plan(plan, tier, seed):
         "`#[cfg(..)]` attributes inside the match_expression guard are evaluated for the default feature set read from src/interpreter/Cargo.toml (closure of `default`); the pattern matcher reads and extends the environment it is given, 'matches' in the property = matches in a fresh environment",
     ]
     plan.assumptions += ["match_expression arm loop: pattern_matches_value_with_semantics, guard_expression_true, expression, match_validate_arm_kinds are arbitrary functions (contracts/C16/matchmodel.rs); `detached_source` / `base_env` (computed above the loop) are parameters; nothing is claimed when the option/matrix coalescing case applies to the selected arm, nor when the guard of an earlier NON-matching arm fails to evaluate (the code evaluates such guards and reports their failure; the property is silent)"]
-    plan.undecided_clauses += ["C16: of match *expressions*: the statements above the arm loop (source evaluation, the Empty / wildcard pre-check), the option/matrix coalescing case, match_validate_arm_kinds and infer_missing_enum_match_patterns themselves; termination of a recursion, non-tail recursion (through expression evaluation), the exhaustiveness pre-check of execute_function_match_arms, pattern_matches_value itself"]
+    plan.undecided_clauses += ["C16: of match *expressions*: the statements above the arm loop (source evaluation, the Empty / wildcard pre-check), the option/matrix coalescing case, match_validate_arm_kinds and infer_missing_enum_match_patterns themselves; termination of a recursion, non-tail recursion (through expression evaluation), the exhaustiveness pre-check of execute_function_match_arms, pattern_matches_value's structural arms (tuple, array, tuple-struct, literal comparison)"]
     plan.level = "proof"
